@@ -1,11 +1,53 @@
-(* Property C18: every OTLP span becomes exactly one STEF record with all its content. *)
-From Coq Require Import List NArith ZArith Bool.
-From Stef Require Import OtlpBase PData Record Image ToStef Traces RefutedFacts.
+(* Property C18: every OTLP span becomes exactly one STEF record with all its content; the
+   sorting mode writes the same multiset.  Model: Otlp/{PData,Record,Image,Traces}.v.
+   span_image = the documented field mapping (ids as lowercase hex text, note N19; in sorting
+   mode the span's own attributes are stored sorted by key). *)
+From Coq Require Import List NArith ZArith Bool Permutation.
+From Stef Require Import OtlpBase PData Record Image ToStef Traces TracesFacts RefutedFacts.
 Import ListNotations.
 Open Scope N_scope.
 
+(* one record per span: every variant of the code, every carried-over writer record *)
+Theorem C18_one_per_span : forall c w b recs,
+  traces_to_stef_from c false w b = Ok recs -> length recs = span_count b.
+Proof. exact traces_count_conv. Qed.
+Print Assumptions C18_one_per_span.
+
+(* record k is the image of span k (with the map index repaired, D11), whatever the writer
+   record held before: events and links resized in place leave nothing behind *)
+Theorem C18_content : forall c w b recs, c_map_inc c = true ->
+  traces_to_stef_from c false w b = Ok recs -> recs = map (span_image false) (flatten_spans b).
+Proof. exact traces_content_conv. Qed.
+Print Assumptions C18_content.
+
+(* sorting mode: for any resource / scope comparison whose Eq means equal identity, the
+   records are a permutation of the images of all spans (hence also one record per span) *)
+Theorem C18_sorted_multiset : forall cmpR cmpS c, c_map_inc c = true ->
+  (forall a b, cmpR a b = Some Eq -> a = b) -> (forall a b, cmpS a b = Some Eq -> a = b) ->
+  forall w b recs, traces_to_stef_gen cmpR cmpS c true w b = Ok recs ->
+  Permutation recs (map (span_image true) (flatten_spans b)).
+Proof. exact traces_sorted_perm. Qed.
+Print Assumptions C18_sorted_multiset.
+
+(* the pinned code: D11 in a span attribute, CmpVal panics on doubles (D18), resources that
+   differ only in the dropped attributes count are merged (D19) *)
 Theorem C18_content_refuted :
   exists b recs, traces_to_stef cfg_pinned false b = Ok recs /\
                  recs <> map (span_image false) (flatten_spans b).
 Proof. exact span_content_refuted. Qed.
 Print Assumptions C18_content_refuted.
+
+Theorem C18_sorted_panic_refuted : exists b, traces_to_stef cfg_pinned true b = Panic.
+Proof. exact sorted_cmp_panic_refuted. Qed.
+Print Assumptions C18_sorted_panic_refuted.
+
+Theorem C18_sorted_merge_refuted :
+  exists b recs, traces_to_stef cfg_pinned true b = Ok recs /\
+    ~ (forall q, In (span_image true q) recs <-> In q (flatten_spans b)).
+Proof. exact sorted_merge_dropped_refuted. Qed.
+Print Assumptions C18_sorted_merge_refuted.
+
+(* Not proved (observed by the correspondence only): that CmpResourceSpans / CmpScopeSpans of
+   the repaired compare.go satisfy the hypothesis of C18_sorted_multiset (the model runs a
+   transcription of them and is compared with the Go records); sort.SliceStable beyond 20
+   elements; float setters with != (known finding C18-setter-negzero). *)
